@@ -235,9 +235,10 @@ pub fn run(rep: &mut Report) {
     let q = false;
     let dl = lattice::dl(if deep { 1024 } else { 256 }, true);
     let kl = lattice::kl();
-    rep.rule = "from_parts on 23 century anchors x the u64 nanosecond axis (every century multiple +-3, u64::MAX-0..3); from_total_nanoseconds / total_nanoseconds / the 64-bit accessors on the duration lattice DL plus i128 extremes; n*Unit, Unit*n, n.unit() on KL x 9 units; compose on the boundary-field product; std conversions. Oracle: i128 count + clamp + canonical-form predicate. Non-trivial = negative century count, nanosecond field >= one century, count outside i64, or a saturating input.".into();
+    rep.rule = "from_parts on 22 century anchors (thorough: all 65 536 century values) x the u64 nanosecond axis (every century multiple +-3, u64::MAX-0..3); from_total_nanoseconds / total_nanoseconds / the 64-bit accessors on the duration lattice DL plus i128 extremes; n*Unit, Unit*n, n.unit() on KL x 9 units; compose on the boundary-field product (thorough: also 3 x 16^7 compositions over a wider set); std conversions. Oracle: i128 count + clamp + canonical-form predicate. Non-trivial = negative century count, nanosecond field >= one century, count outside i64, or a saturating input.".into();
     rep.assumptions = vec!["Duration::to_parts() returns the stored fields".into()];
-    let cs: Vec<i16> = lattice::CENTURY_ANCHORS.iter().filter(|c| **c <= 32767).map(|c| *c as i16).collect();
+    // thorough: every one of the 65 536 century values; quick: the 22 anchors
+    let cs: Vec<i16> = if deep { (i16::MIN..=i16::MAX).collect() } else { lattice::CENTURY_ANCHORS.iter().filter(|c| **c <= 32767).map(|c| *c as i16).collect() };
     let ns = parts_axis();
     rep.bound("from_parts_axis", format!("{} centuries x {} nanosecond values", cs.len(), ns.len()));
     rep.bound("DL_size", dl.len() as u64);
@@ -273,6 +274,23 @@ pub fn run(rep: &mut Report) {
             for slot in f.iter_mut() {
                 *slot = CF[(r % 12) as usize];
                 r /= 12;
+            }
+            j_compose(sign, f, out)
+        });
+    }
+    if deep {
+        // thorough: a second, wider boundary set (16 values per field: unit carries, u32/u64 edges, one century of the
+        // field's unit is covered by [far]) for the signs -1, 0, 1: 3 x 16^7 compositions
+        const CF2: [u64; 16] = [0, 1, 2, 23, 24, 25, 59, 60, 61, 999, 1000, 1001, 86_399, 86_400, u32::MAX as u64, 1 << 62];
+        let n7 = 16u64.pow(7);
+        rep.bound("compose_wide", "signs {-1,0,1} x full product of 7 fields over a 16-value boundary set (3 x 16^7)");
+        sweep(rep, "c02.compose[wide]", 3 * n7, |i, out| {
+            let sign = [-1i8, 0, 1][(i / n7) as usize];
+            let mut r = i % n7;
+            let mut f = [0u64; 7];
+            for slot in f.iter_mut() {
+                *slot = CF2[(r % 16) as usize];
+                r /= 16;
             }
             j_compose(sign, f, out)
         });
